@@ -141,7 +141,7 @@ func (p *referrersProp) Gen(r *Rand, tier string, idx int) any {
 	if r.Chance(0.35) && !rp.FlipProbe {
 		nf := r.Range(1, 2)
 		for i := 0; i < nf; i++ {
-			rp.Faults = append(rp.Faults, NetFault{Class: "manifest", Method: pick(r, []string{"GET", "PUT", "DELETE", "PUT"}), Occur: r.Range(1, 8), Kind: pick(r, []string{"status-500", "transport"})})
+			rp.Faults = append(rp.Faults, NetFault{Class: "manifest", Method: pick(r, []string{"GET", "PUT", "DELETE", "PUT"}), Occur: r.Range(1, 8), Kind: pick(r, []string{"status-500", "transport", "drop-after-apply"})})
 		}
 	}
 	return rp
@@ -450,11 +450,17 @@ func (p *referrersProp) run(rc *RunCtx, rp *ReferrersParams, info *RunInfo) *Ver
 			expectLive, judged := rs.Pre, true
 			if fo != nil {
 				var re *remote.ReferrersError
-				okErr := fo.err == nil || (errors.As(fo.err, &re) && re.IsReferrersIndexDelete())
-				if okErr {
+				idxDel := fo.err != nil && errors.As(fo.err, &re) && re.IsReferrersIndexDelete()
+				switch {
+				case fo.err == nil:
 					expectLive = fo.op.Op == "push"
-				} else {
-					judged = false // a failed operation may or may not be reflected
+				case idxDel && fo.op.Op == "push":
+					expectLive = true // the manifest and the new index are in place; only the old index could not be removed
+				default:
+					// a failed operation may or may not be reflected. That includes a Delete that ends
+					// with a referrers-index-delete error: the manifest itself is then not deleted, and
+					// whether the index still lists it depends on whether a new index had to be written
+					judged = false
 				}
 				// an earlier failed operation on the same referrer does not blur the last successful one
 			}
